@@ -781,6 +781,27 @@ def parse_block(lines):
     return spec_text, out
 
 
+def apply_seams(sections, name, texts, counts):
+    """R21: declared seam substitutions (`//@ seam: "FROM" => "TO"`). Each FROM must occur exactly once in the given texts together.
+    Returns (sections without the seam sections, new texts)."""
+    seams = [sc for sc in sections if sc[0] == "seam"]
+    rest = [sc for sc in sections if sc[0] != "seam"]
+    texts = list(texts)
+    for _, _, txt in seams:
+        for sl in [x for x in txt.split("\n") if x.strip()]:
+            ms = re.match(r'^\s*"((?:[^"\\]|\\.)*)"\s*=>\s*"((?:[^"\\]|\\.)*)"\s*$', sl)
+            if not ms:
+                raise ExtractError("%s: malformed seam line: %s" % (name, sl))
+            frm, to = ms.group(1).replace('\\"', '"'), ms.group(2).replace('\\"', '"')
+            n_occ = sum(t.count(frm) for t in texts)
+            if n_occ != 1:
+                raise ExtractError("seam text %r occurs %d times in %s (expected exactly 1)" % (frm, n_occ, name))
+            texts = [t.replace(frm, to) for t in texts]
+            counts["R21"] = counts.get("R21", 0) + 1
+            counts.setdefault("R21_text", []).append([frm, to])
+    return rest, texts
+
+
 def expand_includes(path, depth=0):
     """textual include of other template fragments (which may contain directives themselves)"""
     if depth > 5:
@@ -834,7 +855,8 @@ def process(template_path, repo, meta, twin=None, stub=()):
             lb = re.match(r'^loop (\d+) body$', fields[3])
             if not lb:
                 fa = re.match(r'^from "(.*)"$', fields[3]).group(1)
-                ta = re.match(r'^to "(.*)"$', fields[4]).group(1)
+                mt_ = re.match(r'^to (next )?"(.*)"$', fields[4])
+                ta, ta_next = mt_.group(2), bool(mt_.group(1))
             path = os.path.join(repo, rel)
             if path not in sources:
                 if not os.path.exists(path):
@@ -866,6 +888,9 @@ def process(template_path, repo, meta, twin=None, stub=()):
                 else:
                     ia = [x.start() for x in re.finditer(re.escape(fa), body) if bmask[x.start()]]
                     ib = [x.start() for x in re.finditer(re.escape(ta), body) if bmask[x.start()]]
+                    if len(ia) == 1 and ta_next:
+                        # `to next "b"`: the first occurrence of b at or after the `from` anchor
+                        ib = [x for x in ib if x >= ia[0]][:1]
                     if len(ia) != 1 or len(ib) != 1:
                         raise ExtractError("%s: statement-range anchors matched %d / %d times" % (name, len(ia), len(ib)))
                     s0, _ = stmt_bounds(body, bmask, ia[0])
@@ -874,6 +899,7 @@ def process(template_path, repo, meta, twin=None, stub=()):
                     raise ExtractError("%s: empty statement range" % name)
                 frag = "{" + body[s0:e1] + "}"
                 counts = {"R15": 1}
+                sections, (frag,) = apply_seams(sections, name, (frag,), counts)
                 frag2 = apply_rewrites(frag, counts)
                 # the wrapper function around this range (nearest preceding `fn` header already emitted)
                 kw = len(out) - 1
@@ -1022,24 +1048,11 @@ def process(template_path, repo, meta, twin=None, stub=()):
                     body = re.sub(pat, am.group(2).strip(), body)
                     counts["R8"] = counts.get("R8", 0) + 1
         stub_reason = None
-        # R21: declared seam substitutions (`//@ seam: "FROM" => "TO"`): each FROM must occur exactly once in header + body
-        seams = [sc for sc in sections if sc[0] == "seam"]
-        sections = [sc for sc in sections if sc[0] != "seam"]
         seam_err = None
-        for _, _, txt in seams:
-            for sl in [x for x in txt.split("\n") if x.strip()]:
-                ms = re.match(r'^\s*"((?:[^"\\]|\\.)*)"\s*=>\s*"((?:[^"\\]|\\.)*)"\s*$', sl)
-                if not ms:
-                    raise ExtractError("%s: malformed seam line: %s" % (name, sl))
-                frm, to = ms.group(1).replace('\\"', '"'), ms.group(2).replace('\\"', '"')
-                n_occ = sig.count(frm) + body.count(frm)
-                if n_occ != 1:
-                    seam_err = "seam text %r occurs %d times in %s (expected exactly 1)" % (frm, n_occ, name)
-                    break
-                sig = sig.replace(frm, to)
-                body = body.replace(frm, to)
-                counts["R21"] = counts.get("R21", 0) + 1
-                counts.setdefault("R21_text", []).append([frm, to])
+        try:
+            sections, (sig, body) = apply_seams(sections, name, (sig, body), counts)
+        except ExtractError as e:
+            seam_err = str(e)
         key = new_name + "@" + container
         if seam_err is not None:
             stub_reason = "extraction: " + seam_err
